@@ -222,21 +222,15 @@ func (s *SoftwrapScanner) Scan(ctx vxfw.DrawContext) bool {
 				return true
 			}
 			s.rest = []byte{}
-			// Append characters to token until we reach the end
-			full := false
-			for _, char := range wordChars {
-				// The line takes graphemes while they fit, and
-				// always at least one
-				if len(s.token) > 0 && w+char.Width > width {
-					full = true
-				}
-				if full {
+			// Append characters to token until the line is full
+			n := splitLongWord(wordChars, width)
+			for i, char := range wordChars {
+				if i >= n {
 					// Append the rest to rest
 					s.rest = append(s.rest, []byte(char.Grapheme)...)
 					continue
 				}
 				s.token = append(s.token, []byte(char.Grapheme)...)
-				w += char.Width
 			}
 			// Append the trailing space
 			s.rest = append(s.rest, trSpace...)
@@ -282,6 +276,42 @@ func (s *SoftwrapScanner) Scan(ctx vxfw.DrawContext) bool {
 		s.token = append(s.token, trSpace...)
 		w += spaceLen
 	}
+}
+
+// splitLongWord returns how many graphemes of a word that is wider than the
+// line go on a line of their own: as many as fit, and always at least one. A
+// run of letters inside the word which fits on a line of its own is not cut:
+// the line ends before it
+func splitLongWord(chars []vaxis.Character, width int) int {
+	n, w := 0, 0
+	for n < len(chars) && (n == 0 || w+chars[n].Width <= width) {
+		w += chars[n].Width
+		n += 1
+	}
+	if n == len(chars) || !isLetter(chars[n-1]) || !isLetter(chars[n]) {
+		return n
+	}
+	// The line would end within a run of letters
+	start, end := n-1, n+1
+	for start > 0 && isLetter(chars[start-1]) {
+		start -= 1
+	}
+	for end < len(chars) && isLetter(chars[end]) {
+		end += 1
+	}
+	runLen := 0
+	for _, char := range chars[start:end] {
+		runLen += char.Width
+	}
+	if start > 0 && runLen <= width {
+		return start
+	}
+	return n
+}
+
+func isLetter(char vaxis.Character) bool {
+	r, _ := utf8.DecodeRuneInString(char.Grapheme)
+	return unicode.IsLetter(r)
 }
 
 func (s *SoftwrapScanner) Text() string {
